@@ -130,7 +130,7 @@ CLAIMED.update({
     "C01": {
         "text": "Theorems: (record level, all 16 scalar kinds) one record of a scalar field decodes to the value it was made from, consuming exactly its own bytes; a packed payload decodes "
                 "to exactly its list; packed chunks concatenate. (message level) roundtrip_nested_partial: for ALL schemas and ALL well-typed values (MsgOk: any number of fields, each flat scalar "
-                "— singular, proto3-optional, oneof member, repeated packed or not —, a nested / recursive / repeated sub-message to any depth, a singular or repeated Timestamp / Duration, a wrapper, or a map with "
+                "— singular, proto3-optional, oneof member, repeated packed or not —, a nested / recursive / repeated sub-message to any depth, a singular or repeated Timestamp / Duration, a singular or repeated wrapper (no None item), or a map with "
                 "integer / bool / string keys and scalar, message or Timestamp / Duration values; arbitrary unknown fields at every level) parse(bytes(m)) succeeds, has the same class, oneof selection and unknown fields "
                 "at every level, holds in every slot an equivalent value or (where the original emitted no byte) the unset default, and encodes to the same bytes; proved by strong induction on the "
                 "decoder's nesting fuel (the payload of a nested record is strictly shorter than the record) over a per-slot decoder-state invariant. MsgOk is decided exactly by the executable msgOkB "
@@ -138,7 +138,8 @@ CLAIMED.update({
                 "encodable: every MsgOk value has an encoding (bytes(m) raises nothing on the domain), so roundtrip_total_partial needs no encoding hypothesis beyond the 2^64-byte bound. "
                 "roundtrip_equal / roundtrip_equal_total: the decoded message m' satisfies m == m' and m' == m for the model of Message.__eq__ (msgEq, BpModel/Eq.lean: NaN equals NaN, -0.0 equals +0.0, "
                 "a PLACEHOLDER slot equals the field's default, presence and unknown fields are not compared) and bytes(m') = bytes(m); msgEq itself is compared with the real == on one-field-apart pairs and on "
-                "(m, parse(bytes(m))) in both orders on every run. PARTIAL (names keep the suffix): repeated wrapper fields are outside MsgOk; the 2^64-byte bound.",
+                "(m, parse(bytes(m))) in both orders on every run. PARTIAL (names keep the suffix): the 2^64-byte bound. Outside the domain by construction: a None ITEM in the list of a repeated wrapper field "
+                "(written like the wrapped default, read back as that default: none_item_not_roundtrip, by decide, replayed on the real code on every run; stage none_items of the correspondence).",
         "note": TB + "in-range = WellTyped.lean (ints in the declared range, float32 patterns a Python float can hold, valid UTF-8, datetimes / timedeltas in the protobuf range); encodings shorter than 2^64 bytes; oneof members not `optional` (standard dataclasses); dict keys pairwise different.",
         "technique": "Lean 4 proof (strong induction on decoder fuel; per-slot decoder-state invariant; per-kind record inverses; decidable domain predicate) + differential correspondence + round-trip oracle",
         "design_ref": "DESIGN.md §7 C01, §13.4",
